@@ -18,8 +18,8 @@ def install(R: Registry):
     R.assume_text(
         "Field.size and Field.alignment are opaque getters here (size > 0, alignment in {1,2,4,8}, size a multiple of alignment: the type invariant of C11, which holds for the native table and, "
         "by check_alignment's own postcondition, for every nested struct); a padding field built from supported_types['char'] has size max(length,1) and alignment 1",
-        "lemma packed_is_natural (assumed, not proved here): if every field offset is a multiple of the field's alignment, offsets are contiguous from 0 and the end is a multiple of the strictest "
-        "alignment, then the natural C / ctypes layout inserts no padding, i.e. ctypes.sizeof == sum of the field sizes",
+        "lemma packed_is_natural (proved by pyvc/lemmas.py on every run from the ABI layout recursion, which is the assumption left): if every field offset is a multiple of the field's alignment, "
+        "offsets are contiguous from 0 and the end is a multiple of the strictest alignment, then the natural C / ctypes layout inserts no padding, i.e. ctypes.sizeof == sum of the field sizes",
     )
     c = R.external("Field.size", params=dict(self="Field"), returns="Int", pure=True, ensures=[])
     c.is_property = True
